@@ -455,8 +455,10 @@ def _stream_read(res, arg, tier):
             res.violation('C07.stream.reader', guard.crash_site(e) + f'|{enc}', dict(case, reads=list(h)), want, repr(e))
             continue
         inner = rd.streamreader
-        k = (stream.tell(), rd.bytebuffer, rd.charbuffer, rd.encoding, inner is not None,
-             (inner.bytebuffer, inner.charbuffer) if inner is not None else None, out)
+        pos = stream.tell()  # (the drain below moves the stream)
+        k = (pos, rd.bytebuffer, rd.charbuffer, rd.encoding, inner is not None,
+             # (multibyte readers keep their pending bytes out of sight: they are a function of position, buffers and output)
+             (inner.__dict__.get('bytebuffer'), inner.__dict__.get('charbuffer')) if inner is not None else None, out)
         if k in seen:
             continue
         seen.add(k)
@@ -471,7 +473,7 @@ def _stream_read(res, arg, tier):
                 res.violation('C07.stream.reader', f'terminal-differs|{_diff_kind(want, t)}|{_tclass(text)}', dict(case, reads=list(h) + ['drain']), want, t)
         except Exception as e:
             res.violation('C07.stream.reader', guard.crash_site(e) + f'|{enc}', dict(case, reads=list(h) + ['drain']), want, repr(e))
-        if stream.tell() < len(data) and len(h) < len(data) + 2:
+        if pos < len(data) and len(h) < len(data) + 2:
             for size in READ_SIZES[:-1]:
                 res.transitions += 1
                 frontier.append(h + (size,))
